@@ -74,7 +74,7 @@ def run_c08(tier, replay=None):
 
 def schema_event(c):
     vlib.cargo_build(["jschema"], features=["schema"])
-    x = os.path.join(vlib.HARNESS, "target", "debug", "jschema")
+    x = os.path.join(vlib.TARGET, "debug", "jschema")
     raw = os.path.join(c.wd, "schema_raw.json")
     p = vlib.run([x, raw])
     if p.returncode != 0: raise vlib.ToolError("jschema failed: " + p.stderr[-1500:])
